@@ -11,7 +11,24 @@ COMPONENT = "validate"
 
 def collision_program(rng):
     """definitions sharing a scoped name across files, and a definition sharing its scoped name with a module of another file"""
-    kind = rng.choice(["def-def", "def-module", "def-module-deeper", "reopened-module"])
+    kind = rng.choice(["def-def", "def-module", "def-module-deeper", "reopened-module", "several-collisions", "several-redefinitions", "preprocessor-symbols", "preprocessor-undef"])
+    if kind == "several-collisions":
+        names = rng.sample(["Alpha", "Bravo", "Charlie", "Delta", "Echo", "Foxtrot"], rng.choice([3, 4, 5]))
+        top = "module Top\n" + "\n".join("struct %s {}" % n for n in names) + "\n"
+        return [top] + ["module Top::%s\nstruct In%s {}\n" % (n, n) for n in names], kind
+    if kind == "several-redefinitions":
+        names = rng.sample(["Alpha", "Bravo", "Charlie", "Delta", "Echo"], 3)
+        return ["module Top\n" + "\n".join("struct %s {}" % n for n in names) + "\n", "module Top\n" + "\n".join("custom %s" % n for n in reversed(names)) + "\n"], kind
+    if kind == "preprocessor-symbols":
+        # a symbol defined in one file must not be visible in another
+        a = "#define FLAG\nmodule A\nstruct One {}\n"
+        b = "module A\nstruct Two {\n#if FLAG\n    extra: int32\n#endif\n    id: int32\n}\n"
+        c = "#if FLAG\nmodule A\nstruct OnlyWithFlag {}\n#else\nmodule A\nstruct OnlyWithoutFlag {}\n#endif\n"
+        return rng.choice([[a, b], [a, b, c], [b, a, c]]), kind
+    if kind == "preprocessor-undef":
+        a = "#define FLAG\n#undef OTHER\nmodule A\nstruct One {}\n"
+        b = "#define OTHER\nmodule A\n#if OTHER && !FLAG\nstruct Two { id: int32 }\n#else\nstruct Two { id: int32, more: string }\n#endif\n"
+        return [a, b], kind
     if kind == "def-def":
         a = "module A\nstruct X { a: int32 }\n"
         b = "module A\n%s\n" % rng.choice(["struct X {}", "custom X", "enum X { P }", "interface X {}", "typealias X = int32"])
@@ -84,14 +101,14 @@ def run(ck):
             roles = tuple(rng.choice("SR") for _ in range(k))
             if "S" in roles and roles not in roles_list:
                 roles_list.append(roles)
-        variants = [(perms[0], roles_list[0]), (perms[0], roles_list[0])] + [(p, roles_list[0]) for p in perms[1:]] + [(rng.choice(perms), r) for r in roles_list[1:]]
+        variants = [(perms[0], roles_list[0])] * 4 + [(p, roles_list[0]) for p in perms[1:]] + [(rng.choice(perms), r) for r in roles_list[1:]]
         for vi, (perm, roles) in enumerate(variants):
             files = [(roles[j], names[j], texts[j]) for j in perm]
             lines.append(dc.run_line(False, ["--diagnostic-format", "json"], [("gen-ok-0", None, None)], files))
             index.append((pi, vi, perm, roles))
     o = dc.run_all(lines, chunk=12)
     ck.stream("orders", description="multi-file programs (valid; with one injected rule violation; with a deprecated definition used elsewhere; definitions sharing a scoped name across files; a definition sharing its scoped "
-              "name with a module declared in another file; re-opened modules) run through the real binary with a capturing generator: the same command line twice in fresh processes, every permutation of up to 4 files, "
+              "name with a module declared in another file, several such collisions and redefinitions at once; re-opened modules; preprocessor symbols defined or undefined in one file and tested in another) run through the real binary with a capturing generator: the same command line four times in fresh processes, every permutation of up to 4 files, "
               "and source/reference re-assignments. Compared: stderr and generator request byte for byte between the two identical runs; acceptance (exit status) across all variants and against the rule model's verdict; "
               "for accepted programs every file's decoded request content and the multiset of warnings across all variants.")
     runs = {}
@@ -113,9 +130,12 @@ def run(ck):
             bad = next(oo for _, _, _, r, oo in rs if r is None or r["exit"] not in ("0", "1"))
             ck.violation("orders", "crash", case, "a verdict in every order", bad[:300], signature={"family": fam.split(":")[0]})
             continue
-        (_, _, _, a, _), (_, _, _, b, _) = rs[0], rs[1]
-        if a["stderr"] != b["stderr"] or a["gens"] != b["gens"] or a["exit"] != b["exit"]:
-            ck.violation("orders", "not-reproducible", case, "byte-identical diagnostics and request in two runs of the same command", "they differ")
+        a = rs[0][3]
+        for (_, _, _, b, _) in rs[1:4]:
+            if a["stderr"] != b["stderr"] or a["gens"] != b["gens"] or a["exit"] != b["exit"]:
+                ck.violation("orders", "not-reproducible", case, "byte-identical diagnostics and request in four runs of the same command", "they differ:\n%s\n-- versus --\n%s" % (
+                    a["stderr"].decode("utf-8", "replace")[:300], b["stderr"].decode("utf-8", "replace")[:300]))
+                break
         exits = {(perm, roles): r["exit"] for _, perm, roles, r, _ in rs}
         if len(set(exits.values())) > 1:
             acc = [k for k, v in exits.items() if v == "0"][0]
